@@ -567,8 +567,9 @@ func (imm *ImmExp) Eval(env Env) (Exp, bool) {
 			}
 			// マクロ定義を再帰的に評価します
 			// マクロ自体が評価されることを確認します
-			evalMacroExp, reduced := macroExp.Eval(env)
-			return evalMacroExp, reduced // 評価されたマクロ式を返します
+			// 名前を定義で置き換えたこと自体が簡約なので、定義がそれ以上簡約できなくても (レジスタの別名など) true を返します
+			evalMacroExp, _ := macroExp.Eval(env)
+			return evalMacroExp, true // 評価されたマクロ式を返します
 		}
 		// マクロでも '$' でもない場合は、未解決の識別子 (ラベルなど) です
 		return imm, false // IdentFactor を含む ImmExp を返します
